@@ -31,6 +31,15 @@ def fine(i):
     return i
 
 
+def probe_nested(i):
+    """what a nested Parallel() without n_jobs resolves to inside a worker, and what the worker's context says"""
+    import os
+    import joblib.parallel as jp_
+    from joblib import Parallel as P_
+    b_, n_ = jp_.get_active_backend()
+    return {"pid": os.getpid(), "context_n_jobs": n_, "parallel_n_jobs": P_().n_jobs, "nested_backend": type(b_).__name__}
+
+
 def main():
     out = sys.stdout
     sys.stdout = sys.stderr
@@ -150,6 +159,20 @@ def main():
                     r["executor_id"] = id(p._backend._workers)
         return r
 
+    def run_nestednjobs(c):
+        """{"mode":"nestednjobs","base":"loky"|"threading"|"multiprocessing","nested_n_jobs":k}: a registered backend whose
+        get_nested_backend() asks for nested n_jobs = k (as the dask backend does with -1)"""
+        base = {"loky": LokyBackend, "threading": ThreadingBackend, "multiprocessing": MultiprocessingBackend}[c["base"]]
+        k = c["nested_n_jobs"]
+
+        class Asking(base):
+            def get_nested_backend(self):
+                nb, _ = super().get_nested_backend()
+                return nb, k
+        register_parallel_backend("verif_asking_" + c["base"], Asking)
+        out_ = Parallel(n_jobs=2, backend="verif_asking_" + c["base"])(delayed(probe_nested)(i) for i in range(4))
+        return {"workers": out_, "caller_pid": os.getpid()}
+
     def run_tempdir(c):
         """{"mode":"tempdir","arg":path|null}: the unit _get_temp_dir(name, arg)"""
         return {"parent": os.path.dirname(mred._get_temp_dir("verif_unit", c["arg"])[0]), "default_parent": default_parent(),
@@ -161,7 +184,7 @@ def main():
             continue
         c = json.loads(line)
         try:
-            r = {"ctx": run_ctx, "life": run_life, "pool": run_pool, "tempdir": run_tempdir}[c["mode"]](c)
+            r = {"ctx": run_ctx, "life": run_life, "pool": run_pool, "tempdir": run_tempdir, "nestednjobs": run_nestednjobs}[c["mode"]](c)
         except BaseException as e:  # noqa
             r = {"harness_error": repr(e)}
         out.write(json.dumps(r) + "\n")
